@@ -496,7 +496,10 @@ class ScriptedProtocol(IProtocol):
 
     def initialize(self):
         host = CTX.scenario.get("host_plugin")
-        if host:
+        if host == "random_trip":
+            from gradysim.protocol.plugin.random_mobility import RandomMobilityPlugin
+            self._hosted = RandomMobilityPlugin(self)
+        elif host:
             # the protocol hosts one of the library's follow-mobility plugins, which runs timers of its own
             from gradysim.protocol.plugin.follow_mobility import MobilityLeaderPlugin, MobilityFollowerPlugin
             self._hosted = (MobilityLeaderPlugin if host == "leader" else MobilityFollowerPlugin)(self)
@@ -513,6 +516,8 @@ class ScriptedProtocol(IProtocol):
 
     def handle_timer(self, timer):
         n = _tnum(timer)
+        if CTX.scenario.get("host_plugin") == "random_trip" and self.provider.get_id() == 0:
+            self._hosted.initiate_random_trip()        # the node re-plans its random trip on every round
         self._fire("timer", n, "timer %s" % (n if n >= 0 else "corrupt:" + repr(timer)))
         return self._result()
 
